@@ -785,6 +785,16 @@ int _vnacal_new_add_common(vnacal_new_add_arguments_t vnaa)
 		"calloc: %s", strerror(errno));
 	goto out;
     }
+    /*
+     * Check all the parameters before the first of them is registered
+     * with the vnacal_new_t: a refused standard adds nothing.
+     */
+    for (int s_cell = 0; s_cell < s_cells; ++s_cell) {
+	if (_vnacal_new_check_parameter(function, vnp,
+		    s_matrix[s_cell]) == -1) {
+	    goto out;
+	}
+    }
     for (int s_cell = 0; s_cell < s_cells; ++s_cell) {
 	if ((full_s_matrix[s_cell_map[s_cell]] =
 		    _vnacal_new_get_parameter(function, vnp,
